@@ -182,7 +182,7 @@ def _pick_w(rng, sh, tab, base):
 
 
 def _case(rng, mode):
-    rev = rng.randint(0, 1)
+    rev = rng.choice([0, 0, 1, 2])     # 1 = --layout=reverse, 2 = --layout=reverse-list
     tab = rng.choice([1, 2, 4, 4, 8, 8])
     nh = 1 if rng.random() < 0.12 else 0
     kr = 1 if rng.random() < 0.2 else 0
@@ -300,7 +300,7 @@ def histogram_keys(case):
     cfg, ops = _parse(case)
     tab = max(1, int(cfg[1]))
     ks = set()
-    ks.add("reverse" if cfg[0] == "1" else "bottom-up")
+    ks.add({"1": "reverse", "2": "reverse-list"}.get(cfg[0], "bottom-up"))
     ks.add("tabstop=%s" % cfg[1])
     if cfg[2] == "1":
         ks.add("no_hscroll")
